@@ -83,6 +83,9 @@ type State struct {
 	steps   int
 	forkTag string
 	choices []string // human-readable record of Choose / decisions
+	// mapOrderNondet: range over a map of 2 or 3 entries visits them in an arbitrary order (one path per permutation),
+	// as Go leaves the order unspecified; off by default (insertion order)
+	mapOrderNondet bool
 	expects map[string]*Term // verifrt.Expected values
 	sched   *Sched
 	notes   []string
@@ -100,7 +103,7 @@ var stateCounter int
 
 func (st *State) clone() *State {
 	stateCounter++
-	c := &State{id: stateCounter, alloc: st.alloc, panic_: st.panic_, steps: st.steps, budget: st.budget, retry: true, acctDone: st.acctDone, symDecisions: st.symDecisions, stepLimit: st.stepLimit, stepMsg: st.stepMsg}
+	c := &State{id: stateCounter, alloc: st.alloc, panic_: st.panic_, steps: st.steps, budget: st.budget, retry: true, acctDone: st.acctDone, symDecisions: st.symDecisions, stepLimit: st.stepLimit, stepMsg: st.stepMsg, mapOrderNondet: st.mapOrderNondet}
 	c.frames = make([]*Frame, len(st.frames))
 	for i, f := range st.frames {
 		c.frames[i] = f.clone()
